@@ -603,18 +603,14 @@ class ASTListener(ModelicaListener):
             self.ast[ctx] = self.ast[ctx.class_elem]
 
     def enterComponent_clause(self, ctx: ModelicaParser.Component_clauseContext):
-        prefixes = ctx.type_prefix().getText().split(" ")
-        if prefixes[0] == "":
-            prefixes = []
+        prefixes = [child.getText() for child in ctx.type_prefix().getChildren()]
         self.ast[ctx] = ast.ComponentClause(
             prefixes=prefixes,
         )
         self.comp_clause = self.ast[ctx]
 
     def enterComponent_clause1(self, ctx: ModelicaParser.Component_clause1Context):
-        prefixes = ctx.type_prefix().getText().split(" ")
-        if prefixes[0] == "":
-            prefixes = []
+        prefixes = [child.getText() for child in ctx.type_prefix().getChildren()]
         self.ast[ctx] = ast.ComponentClause(
             prefixes=prefixes,
         )
